@@ -7,7 +7,7 @@ Model of `storage/badger_custodian.go`: `readCustodianAccount`, `parseCustodianU
 (`common.ParseCustodianUpdateNodesExtra(extra, genesis)`) is an oracle `parse tx genesis`
 (`none` = error); the harness supplies the real answers.
 -/
-namespace Mixin.Custodian
+namespace Mixin.CustodianLookup
 
 structure Entry where
   ts : Nat
@@ -75,4 +75,4 @@ def insertKey (e : Entry) : List Entry → List Entry
   | [] => [e]
   | x :: xs => if e.ts < x.ts then e :: x :: xs else if e.ts = x.ts then e :: xs else x :: insertKey e xs
 
-end Mixin.Custodian
+end Mixin.CustodianLookup
